@@ -113,7 +113,7 @@ func c04Family(level int) []SCase {
 
 func c04(ctx *Ctx) {
 	cases, paths := c04Cases(ctx.Level)
-	runBehaviour(ctx, behaviour{Name: "required", Cases: cases, Devs: c04Devs,
+	runBehaviour(ctx, behaviour{Name: "required", Cases: cases, Devs: c04Devs, Respell: true,
 		DocGen: func(sc *SCase, m *refmodel.Model) []refmodel.Doc {
 			base := m.Docs(1)[0].V
 			return c04Docs(base, paths[sc.ID])
